@@ -45,6 +45,7 @@ type exchange struct {
 	req  *http.Request
 	resp *Response
 	done bool
+	err  error // the request stream was reset by the server (handler aborted): what RoundTrip returns
 }
 
 // Response is what the handler wrote, captured verbatim.
@@ -112,6 +113,8 @@ type Server struct {
 	// Served counts request streams handled by Handler; Declined counts non-request streams
 	// that the dispatcher did not take (they are reset, as a plain HTTP/3 server would do).
 	Served, Declined int
+	// Aborted counts request streams whose handler aborted with http.ErrAbortHandler.
+	Aborted int
 }
 
 // ServeQUICConn serves one connection until it is closed; it returns after all handlers
@@ -207,7 +210,33 @@ func (s *Server) handleRequestStream(conn *vquic.Conn, str *vquic.Stream) {
 	if h == nil {
 		h = http.DefaultServeMux
 	}
-	h.ServeHTTP(w, req)
+	// As the real server does (server_conn.go handleRequest: recover around ServeHTTP), a handler
+	// that aborts by panicking with http.ErrAbortHandler (httputil.ReverseProxy does when its
+	// upstream dies mid-response) takes down its own request stream only: the stream is reset with
+	// H3_INTERNAL_ERROR, the client's RoundTrip fails, the connection and the other streams live on.
+	// Any other panic value is passed on unchanged (the real server would log "http3: panic
+	// serving" and reset the stream too; here it stays a crash the checks report, and the
+	// scheduler's own tear-down panics must not be swallowed).
+	aborted := false
+	func() {
+		defer func() {
+			if p := recover(); p != nil {
+				if p != http.ErrAbortHandler {
+					panic(p)
+				}
+				aborted = true
+			}
+		}()
+		h.ServeHTTP(w, req)
+	}()
+	if aborted {
+		s.Aborted++
+		str.CancelRead(vquic.StreamErrorCode(rhttp3.ErrCodeInternalError))
+		str.CancelWrite(vquic.StreamErrorCode(rhttp3.ErrCodeInternalError))
+		ex.err = &vquic.StreamError{StreamID: str.StreamID(), ErrorCode: vquic.StreamErrorCode(rhttp3.ErrCodeInternalError), Remote: true}
+		ex.done = true
+		return
+	}
 	if !resp.WroteHeader {
 		w.WriteHeader(http.StatusOK)
 	}
@@ -273,6 +302,9 @@ func DoRaw(conn *vquic.Conn, req *http.Request) (*Response, error) {
 	e.Point("quic", func() bool { return ex.done || conn.IsClosed() }, "http3.RoundTrip")
 	if !ex.done {
 		return nil, conn.CloseErr()
+	}
+	if ex.err != nil {
+		return nil, ex.err
 	}
 	return ex.resp, nil
 }
